@@ -1,5 +1,6 @@
 import CssVerif.Lemmas.SelTokScan
 import CssVerif.Lemmas.SelTokStr
+import CssVerif.Lemmas.SelTokName
 import CssVerif.Model.SelText
 /-!
 # The tokenizer model in front of the selector model: a plain token list is what its text tokenizes to
@@ -58,22 +59,6 @@ theorem no92_of_ranges (cs : List (Nat × Nat)) (h : CssVerif.Tok.inR cs 92 = fa
   rw [e, h] at this
   cases this
 
-theorem plainName_shape {v : Cps} (h : plainName v = true) :
-    ∃ c cs, v = c :: cs ∧ CssVerif.Tok.inR CssVerif.Tok.identStart c = true ∧
-      ∀ x ∈ cs, CssVerif.Tok.inR CssVerif.Tok.identRest x = true := by
-  cases v with
-  | nil => simp [plainName] at h
-  | cons c cs =>
-    simp only [plainName, Bool.and_eq_true, List.all_eq_true] at h
-    exact ⟨c, cs, rfl, h.1, h.2⟩
-
-theorem name_no92 (c : Nat) (cs : Cps) (hc : CssVerif.Tok.inR CssVerif.Tok.identStart c = true)
-    (hcs : ∀ x ∈ cs, CssVerif.Tok.inR CssVerif.Tok.identRest x = true) : ∀ x ∈ c :: cs, x ≠ 92 := by
-  intro x hx e
-  rcases List.mem_cons.mp hx with e1 | hx
-  · rw [← e1, e] at hc; revert hc; decide
-  · have := hcs x hx; rw [e] at this; revert this; decide
-
 theorem eq_dropLast_of_getLast? {l : List Nat} {a : Nat} (h : l.getLast? = some a) : l = l.dropLast ++ [a] := by
   have hne : l ≠ [] := by intro e; simp [e] at h
   have h2 := List.dropLast_concat_getLast hne
@@ -84,54 +69,101 @@ theorem eq_dropLast_of_getLast? {l : List Nat} {a : Nat} (h : l.getLast? = some 
 
 /-! ## one token -/
 
+theorem name_head_not_fast {v : Cps} (hv : plainName v = true) :
+    ∀ c r, v = c :: r → fastChars.contains c = false := by
+  intro c r e
+  obtain ⟨c', t, e', hc⟩ := CssVerif.Tok.plainName_head hv
+  rw [e] at e'
+  simp only [List.cons.injEq] at e'
+  rw [e'.1]
+  exact CssVerif.Tok.not_fast_of_ranges CssVerif.Tok.nameHeads (by decide) _ hc
+
+theorem valueOf_unesc_id (s : Cps) (name : String) (found : Cps) (h1 : unescTypes.contains name = true)
+    (h2 : cleanTypes.contains name = false) (h : CssVerif.Tok.unescape found = found) :
+    CssVerif.Tok.valueOf s name found = some ⟨name, found, found⟩ := by
+  simp only [CssVerif.Tok.valueOf, h1, h2, CssVerif.Tok.subU_eq_unescape, h, Bool.false_eq_true, if_false, if_true]
+
+theorem plainName_ne {v : Cps} (hv : plainName v = true) : v ≠ [] := by
+  intro e; rw [e] at hv; simp [plainName] at hv
+
 theorem lexstep_ident (v stop : Cps) (h : plainName v = true)
     (hs : CssVerif.Tok.HeadIn (fun c => inRanges nameStopR c = true) stop) : Step ⟨.ident, v⟩ stop := by
-  obtain ⟨c, cs, rfl, hc, hcs⟩ := plainName_shape h
-  apply lexstep_of _ stop "IDENT" rfl (by simp)
-  · intro c' r e; simp only [List.cons.injEq] at e; obtain ⟨rfl, _⟩ := e
-    exact CssVerif.Tok.not_fast_of_ranges CssVerif.Tok.identStart (by decide) _ hc
-  · exact CssVerif.Tok.scan_ident_stop true c cs stop hc hcs hs
-  · exact CssVerif.Tok.valueOf_ident _ _ (name_no92 c cs hc hcs)
+  apply lexstep_of _ stop "IDENT" rfl (plainName_ne h) (name_head_not_fast h)
+  · exact CssVerif.Tok.scan_name_ident true v stop h hs
+  · exact valueOf_unesc_id _ _ _ (by decide) (by decide) (CssVerif.Tok.unescape_name h)
 
 theorem lexstep_hash (v stop : Cps) (h : (match v with
-      | 35 :: n :: ns => (n :: ns).all (inRanges identRestR)
+      | 35 :: n :: ns => nameBody (n :: ns)
       | _ => false) = true)
     (hs : CssVerif.Tok.HeadIn (fun c => inRanges nameStopR c = true) stop) : Step ⟨.hash, v⟩ stop := by
   split at h
   · rename_i n ns
-    simp only [List.all_eq_true] at h
-    have hn : CssVerif.Tok.inR CssVerif.Tok.identRest n = true := h n (by simp)
-    have hns : ∀ x ∈ ns, CssVerif.Tok.inR CssVerif.Tok.identRest x = true := fun x hx => h x (List.mem_cons_of_mem _ hx)
     apply lexstep_of _ stop "HASH" rfl (by simp)
     · intro c' r e; simp only [List.cons.injEq] at e; obtain ⟨rfl, _⟩ := e; decide
-    · exact CssVerif.Tok.scan_hash_stop true n ns stop hn hns hs
-    · apply CssVerif.Tok.valueOf_unesc _ _ _ (by decide) (by decide)
-      intro x hx e
-      rcases List.mem_cons.mp hx with e1 | hx
-      · rw [e] at e1; cases e1
-      · have := h x hx; rw [e] at this; revert this; decide
+    · exact CssVerif.Tok.scan_name_hash true n ns stop h hs
+    · apply valueOf_unesc_id _ _ _ (by decide) (by decide)
+      rw [CssVerif.Tok.unescape_cons_plain 35 _ (by decide), CssVerif.Tok.unescape_body _ _ (Nat.le_refl _) h]
   · cases h
 
 theorem lexstep_function (v stop : Cps) (h1 : v.getLast? = some 40) (h2 : plainName v.dropLast = true)
     (h3 : (CssVerif.Tok.pyLower v.dropLast != andWord) = true) : Step ⟨.function, v⟩ stop := by
-  obtain ⟨c, cs, hv, hc, hcs⟩ := plainName_shape h2
-  have hvv : v = c :: cs ++ [40] := by
-    have := eq_dropLast_of_getLast? h1
-    rw [this, hv]
-  rw [hv] at h3
+  have hvv := eq_dropLast_of_getLast? h1
+  generalize v.dropLast = w at h2 h3 hvv
   subst hvv
   apply lexstep_of _ stop "FUNCTION" rfl (by simp)
-  · intro c' r e; simp only [List.cons_append, List.cons.injEq] at e; obtain ⟨rfl, _⟩ := e
-    exact CssVerif.Tok.not_fast_of_ranges CssVerif.Tok.identStart (by decide) _ hc
-  · have := CssVerif.Tok.scan_function true c cs stop hc hcs h3
+  · intro c r e
+    obtain ⟨c', t, e', hc⟩ := CssVerif.Tok.plainName_head h2
+    rw [e'] at e
+    simp only [List.cons_append, List.cons.injEq] at e
+    rw [← e.1]
+    exact CssVerif.Tok.not_fast_of_ranges CssVerif.Tok.nameHeads (by decide) _ hc
+  · have := CssVerif.Tok.scan_name_function true w stop h2 h3
     simp only [List.append_assoc, List.cons_append, List.nil_append, List.length_append, List.length_cons,
       List.length_nil] at this ⊢
     exact this
-  · apply CssVerif.Tok.valueOf_unesc _ _ _ (by decide) (by decide)
-    intro x hx e
-    rcases List.mem_append.mp hx with hx | hx
-    · exact name_no92 c cs hc hcs x hx e
-    · simp at hx; omega
+  · apply valueOf_unesc_id _ _ _ (by decide) (by decide)
+    exact CssVerif.Tok.unescape_name_paren h2
+
+theorem mem_takeWhile_p {p : Nat → Bool} : ∀ (l : List Nat) (c : Nat), c ∈ l.takeWhile p → p c = true := by
+  intro l
+  induction l with
+  | nil => intro c h; simp at h
+  | cons a t ih =>
+    intro c h
+    simp only [List.takeWhile_cons] at h
+    split at h
+    · rename_i ha
+      rcases List.mem_cons.mp h with rfl | h
+      · exact ha
+      · exact ih c h
+    · simp at h
+
+theorem lexstep_dimension (v stop : Cps) (h1 : (v.takeWhile (inRanges digitR)).isEmpty = false)
+    (h2 : plainName (v.dropWhile (inRanges digitR)) = true)
+    (hs : CssVerif.Tok.HeadIn (fun c => inRanges nameStopR c = true) stop) : Step ⟨.dimension, v⟩ stop := by
+  have hv : v = v.takeWhile (inRanges digitR) ++ v.dropWhile (inRanges digitR) := (List.takeWhile_append_dropWhile).symm
+  have hdig : ∀ c ∈ v.takeWhile (inRanges digitR), CssVerif.Tok.isDigit c = true := by
+    intro c hc
+    have := mem_takeWhile_p _ c hc
+    simpa [inRanges, digitR, CssVerif.Tok.isDigit] using this
+  generalize v.takeWhile (inRanges digitR) = ds at h1 hv hdig
+  generalize v.dropWhile (inRanges digitR) = u at h2 hv
+  subst hv
+  cases ds with
+  | nil => simp at h1
+  | cons d ds =>
+    apply lexstep_of _ stop "DIMENSION" rfl (by simp)
+    · intro c' t e; simp only [List.cons_append, List.cons.injEq] at e; obtain ⟨rfl, _⟩ := e
+      have := hdig d (by simp)
+      exact CssVerif.Tok.not_fast_of_ranges [(48, 57)] (by decide) _ (by simpa [CssVerif.Tok.inR, CssVerif.Tok.isDigit] using this)
+    · have := CssVerif.Tok.scan_name_dimension true d ds u stop hdig h2 hs
+      simp only [List.append_assoc, List.length_append] at this ⊢
+      exact this
+    · apply valueOf_unesc_id _ _ _ (by decide) (by decide)
+      rw [CssVerif.Tok.unescape_append_plain _ _ (by
+        intro c hc e
+        have := hdig c hc
+        rw [e] at this; revert this; decide), CssVerif.Tok.unescape_name h2]
 
 theorem lexstep_s (v stop : Cps) (h1 : v.isEmpty = false) (h2 : v.all (inRanges wsR) = true)
     (hs : CssVerif.Tok.HeadIn (fun c => inRanges wsR c = false) stop) : Step ⟨.s, v⟩ stop := by
@@ -263,6 +295,9 @@ theorem tok_step (t : Tok) (stop : Cps) (hp : t.plain = true)
   case number =>
     simp only [Bool.and_eq_true, Bool.not_eq_true'] at hp
     exact lexstep_number v stop hp.1 hp.2 (by simpa [Tok.follow] using hs)
+  case dimension =>
+    simp only [Bool.and_eq_true, Bool.not_eq_true'] at hp
+    exact lexstep_dimension v stop hp.1 hp.2 (by simpa [Tok.follow] using hs)
   case includes => simp only [beq_iff_eq] at hp; subst hp; exact lexstep_fixed _ "INCLUDES" _ 13 rfl (by decide) stop
   case dashmatch => simp only [beq_iff_eq] at hp; subst hp; exact lexstep_fixed _ "DASHMATCH" _ 14 rfl (by decide) stop
   case prefixmatch => simp only [beq_iff_eq] at hp; subst hp; exact lexstep_fixed _ "PREFIXMATCH" _ 15 rfl (by decide) stop
@@ -301,7 +336,7 @@ theorem ofName_typeStr (t : Tok) (hp : t.plain = true) : TT.ofName (codes (typeS
   cases typ <;> simp only [Tok.plainCls, Bool.false_eq_true] at hp <;> (dsimp only; decide)
 
 theorem plain_head (t : Tok) (hp : t.plain = true) :
-    ∃ c w, t.val = c :: w ∧ CssVerif.Tok.inR [(0, 63), (65, 127)] c = true := by
+    ∃ c w, t.val = c :: w ∧ CssVerif.Tok.inR [(0, 63), (65, 238), (240, 253), (255, 1114111)] c = true := by
   simp only [Tok.plain, Bool.and_eq_true] at hp
   cases hv : t.val with
   | nil => rw [hv] at hp; simp [headOk] at hp
@@ -356,7 +391,7 @@ theorem loop_chain : ∀ (l : List Tok), plainChain l = true → ∀ (fuel line 
 /-- **the tokenizer returns a plain chain**: `Tokenizer().tokenize(text)` on the concatenated values of a plain
 token list yields exactly that token list (types and values) -/
 theorem tokensOf_plain (l : List Tok) (h : plainChain l = true) : tokensOf (flat l) = l := by
-  have hstart : CssVerif.Tok.HeadIn (fun c => CssVerif.Tok.inR [(0, 63), (65, 127)] c = true) (flat l) := by
+  have hstart : CssVerif.Tok.HeadIn (fun c => CssVerif.Tok.inR [(0, 63), (65, 238), (240, 253), (255, 1114111)] c = true) (flat l) := by
     cases l with
     | nil => left; rfl
     | cons t ts =>
@@ -367,7 +402,7 @@ theorem tokensOf_plain (l : List Tok) (h : plainChain l = true) : tokensOf (flat
       right; exact ⟨c, w ++ flat ts, by rw [flat_cons, hv]; rfl, hc⟩
   have hbom : bomRe.first (flat l) = none := by
     apply CssVerif.Tok.first_none_of_ms_nil
-    exact CssVerif.Tok.ms_nil_of_headIn (cs := [(0, 63), (65, 127)]) (by decide) (by decide) hstart
+    exact CssVerif.Tok.ms_nil_of_headIn (cs := [(0, 63), (65, 238), (240, 253), (255, 1114111)]) (by decide) (by decide) hstart
   have hcs : CssVerif.Tok.hasAt (flat l) charsetStart = false := by
     rcases hstart with h0 | ⟨c, t, h0, hc⟩
     · rw [h0]; decide
